@@ -142,10 +142,12 @@ def run(prop, tier, seed, unit_results):
             res['violations'].append({'unit': 'purity-scan', 'label': 'C18.scan-' + re.sub(r'[^A-Za-z0-9]+', '-', what)[:40].strip('-'),
                                       'failure': {'message': 'purity scan: %s at %s:%d' % (what, f, ln), 'blocks': [], 'labels': [], 'where': ['%s:%d' % (f, ln)], 'props': ['C18']},
                                       'witness': {'kind': 'source location', 'file': f, 'line': ln, 'what': what}})
-    # witness search
+    # witness search: always run (quick: the fixed seed 1, thorough: the given seed as well, more cases)
     undec = any(u['undecided'] for u in unit_results)
     failed = any(f for u in unit_results for f in u['failures'] if prop in f['props'])
-    want = replay_available() and prop in replay_props() and (undec or failed or tier == 'thorough' or os.environ.get('VERIF_REPLAY') == '1')
+    want = replay_available() and prop in replay_props() and os.environ.get('VERIF_REPLAY') != '0'
+    if tier == 'quick':
+        seed = 1
     if want:
         rr = run_replay(prop, tier, seed)
         rep = {k: rr.get(k) for k in ('status', 'cases', 'distinct', 'rule', 'wall_s', 'samples', 'detail')}
